@@ -24,6 +24,7 @@ def parseW (s : String) : Option WOp :=
   | "rd" => some .rd
   | "rv" => some .rd     -- the void overload of read (the client reports what its functor saw)
   | "md" => some .md
+  | "mc" => some .md     -- modify with a functor that takes `const T&` and still writes (shallow const)
   | "mv" => some .md     -- the value-returning overload of modify (the client checks the returned value itself)
   | "st" => v.toInt?.map .st
   | "as" => v.toInt?.map .as
